@@ -309,6 +309,19 @@ func intEquivalents(rel token.Token, x, y ssa.Value) []relAlt {
 		return nil
 	}
 	mk := func(v int64) ssa.Value { return ssa.NewConst(constant.MakeInt64(v), k.Type()) }
+	// a length is never negative: `len(x) <= 0` ≡ `len(x) < 1` ≡ `len(x) == 0`, `len(x) > 0` ≡ `len(x) >= 1` ≡ `len(x) != 0`
+	if IsLenOf(Any)(x) {
+		switch {
+		case (rel == token.LEQ && n == 0) || (rel == token.LSS && n == 1):
+			return []relAlt{{token.EQL, x, mk(0)}, {token.LEQ, x, mk(0)}, {token.LSS, x, mk(1)}}
+		case (rel == token.GTR && n == 0) || (rel == token.GEQ && n == 1):
+			return []relAlt{{token.NEQ, x, mk(0)}, {token.GTR, x, mk(0)}, {token.GEQ, x, mk(1)}}
+		case rel == token.EQL && n == 0:
+			return []relAlt{{token.LEQ, x, mk(0)}, {token.LSS, x, mk(1)}}
+		case rel == token.NEQ && n == 0:
+			return []relAlt{{token.GTR, x, mk(0)}, {token.GEQ, x, mk(1)}}
+		}
+	}
 	switch rel {
 	case token.LSS:
 		return []relAlt{{token.LEQ, x, mk(n - 1)}}
